@@ -26,7 +26,7 @@ META = {
     'level': 'proof',
     'level_text': 'Proved for every byte string: the model of Decode(src,64) never hits a Go index panic and never exhausts fuel (the table '
                   'program is acyclic with kernel-checked rank certificate), on success 1 <= Len <= min(15,len(src)), every error carries '
-                  'Len <= len(src), a non-zero PCRel is 1, 2 or 4 with 0 < PCRelOff and PCRelOff+PCRel <= Len, and the consumer scan loops '
+                  'Len <= len(src), a non-zero PCRel is 1, 2 or 4 with 0 < PCRelOff and PCRelOff+PCRel <= Len, a successful decode with a PC-relative field has numeric Opcode != 0 (what fixBlock tests), and the consumer scan loops '
                   '(ParseIns / GetFuncSize shape) strictly advance and stay in range.  The table and all constants are regenerated from the '
                   'compiled package on every run; the interpreter is tied to the real decoder by the correspondence stream.',
     'level_note': 'Partial where the property itself is a comparison with another program: "same boundary, opcode and PC-relative field as an '
